@@ -117,6 +117,9 @@ func (fc *FnCtx) wf(t types.Type, term string, depth int) string {
 		return "(=> (b_nil " + term + ") (= (b_s " + term + ") \"\"))"
 	case "Ctx":
 		return "true"
+	case "Iface":
+		// the nil interface has one representation
+		return "(and (>= (i_tag " + term + ") 0) (=> (= (i_tag " + term + ") 0) (= (i_pl " + term + ") 0)))"
 	}
 	switch u := t.Underlying().(type) {
 	case *types.Basic:
